@@ -331,9 +331,29 @@ class CallsMixin:
             return key, con
         return None
 
+    def funcvalue_name(self, fr, fnv):
+        """'funcvalue T.f' for a called function value read from field f of struct type T"""
+        if fnv.get('k') != 'reg':
+            return 'funcvalue'
+        d = self.def_instr(fr, fnv['name'])
+        types = self.types
+        tk = fname = None
+        if d is not None and d['op'] == 'UnOp' and d.get('uop') == '*' and d['x'].get('k') == 'reg':
+            fa = self.def_instr(fr, d['x']['name'])
+            if fa is not None and fa['op'] == 'FieldAddr' and types.kind(fa['x']['type']) == 'ptr':
+                tk, fname = types.elem(fa['x']['type']), fa['fname']
+        elif d is not None and d['op'] == 'Field':
+            tk, fname = d['x'].get('type'), d['fname']
+        if tk is None:
+            return 'funcvalue'
+        dd = types.get(tk)
+        tn = dd['name'].rsplit('.', 1)[-1] if dd.get('k') == 'named' else tk
+        return 'funcvalue:%s.%s' % (tn, fname)
+
     def call_funcvalue(self, st, fr, b, i, ins, fv, args):
         sig = self.types.desc(fv.t)
         rtypes = [r['type'] for r in (sig.get('results') or [])]
+        self.callsite_obligations(st, fr, ins, self.funcvalue_name(fr, ins['call']['fn']), args)
         ff = self.funcfield_contract(fr, ins['call']['fn'])
         if ff is not None:
             key, con = ff
